@@ -253,6 +253,22 @@ PROPS["C03"] = {
                    "the Kalman / basic filters, the clock overlay and the daemon are outside this model (C13, C18, C20)"],
 }
 
+PROPS["C17"] = {
+    "streams": [{"name": "inst"}, {"name": "tlv"}, {"name": "timed"}, {"name": "threads", "model": False}],
+    "model_is_spec": ["inst", "tlv", "timed"],
+    "spec_theorem": "the model's lock trace of every host call is a flat sequence with at most one write acquisition, and calls without a write acquisition leave the shared state alone (C17.writes_at_most_once, no_write_no_change)",
+    "rule": "inst / tlv / timed: every op of these streams runs over a recording implementation of the public PtpInstanceStateMutex "
+            "trait that logs every acquisition (r / w) and release; compared with the model's lock trace after every op (a nested "
+            "acquisition would read `rw..` instead of `r.w.`); oracle: nesting depth > 1. threads: one instance over the library's own "
+            "std::sync::RwLock implementation, the Slave port handling 1 000 000 (thorough: 8 000 000) Announces per round of its parent that alternate "
+            "between two contents differing in every field, while a second thread fires the announce timer of a Master port and a third "
+            "takes snapshots through parent_ds / current_ds / time_properties_ds: every Announce and every snapshot must be entirely of "
+            "one content; a watchdog reports a blocked thread, a join error a poisoned lock. distinct = distinct ops (threads: rounds)",
+    "explanation": "Lean: lock trace model of every call site; at most one write section per call; no change outside it; atomic sections => snapshots of whole updates",
+    "assumptions": INST_ASSUME + ["the lock gives mutual exclusion (std RwLock / RefCell); the interleaving argument is over critical sections, not over instructions",
+                   "thread interleavings are sampled by the stress run, not enumerated (no model checker for the Rust threads is used)"],
+}
+
 
 def split_obs(obs):
     """(items, status, state) of an instance-stream observation line"""
@@ -301,6 +317,10 @@ def projection(pid, stream, profile):
             st = state_part(obs)
             return " ; ".join(keep) + " | " + m + " | " + st
         return f8
+    if pid == "C17":
+        def f17(op, obs):
+            return obs.split(" | L ")[1] if " | L " in obs else None
+        return f17
     if pid == "C03":
         def f3(op, obs):
             return "panic" if "R panic" in obs else "returned"
